@@ -306,8 +306,8 @@ func rxGroupsOf(pattern string) (int, bool) {
 
 // C01: every entry point is total (panic-freedom skeleton).
 func C01(p *core.Program, r *core.Report) {
-	r.Explanation = "Necessary conditions of `never panics, returns error or a div`, decided on every path of the module code reachable from the entry points. T1 (nil links): a *html.Node obtained from a link field (Parent/FirstChild/LastChild/PrevSibling/NextSibling), from a function that may return nil, or from a map lookup may only be dereferenced (field access, or passed to a callee that dereferences that parameter without its own test - computed as interprocedural summaries over the module, go-shiori/dom and the html.Node methods) where a nil test of that value excludes nil (guard-cut: with all `v != nil` edges removed the dereference must be unreachable); the remaining sites are reviewed exceptions naming the DOM invariant. T2 (cross-object bounds): a string/slice may be sliced at an offset that is the length of ANOTHER value only under a case-sensitive HasPrefix of exactly these two values or a length comparison. T3 (partial operations): every constant index, single-result type assertion and integer division is guarded by a length/kind/zero test of the same value, is structurally safe (strings.Split()[0], full regexp submatches), or reviewed. T4: start/end placeholders are balanced (the retainer pops one start per end; shared with C07). T5: Apply returns an error or a Result whose Node was set to a fresh div, on every path. T6: module code starts no goroutine (a fault in one could not be recovered by the caller). T7 (never loops): every loop of reachable module code has a recognised variant - an exhausted iterator, an integer counter moving towards a bound that cannot run away (including delete-and-stay loops and steps of 1 + a non-negative counter field), or a node cursor replaced by a node one or more links away in a single direction of a finite tree. T9 (nil records): a pointer to one of the module's own record types that a module function may answer as nil (explicit nil, or the answer of another such function; after expansion of helpers: a merge with a nil edge) is dereferenced only where a nil test of that value excludes nil. T8: every recursive call passes a strict descendant of the node it was given (one reviewed document-order walk in the page-number finder)."
-	r.NotCovered = "termination beyond the loop/recursion variants of T7/T8 (third-party code, stack depth on very deep documents), relational index arithmetic on offsets stored in struct fields (pagination/pattern: not claimed), nil maps, nil pointers other than nodes and the module's record types (T9), record pointers paired with an error/ok result, panics inside third-party code and the standard library, memory exhaustion."
+	r.Explanation = "Necessary conditions of `never panics, returns error or a div`, decided on every path of the module code reachable from the entry points. T1 (nil links): a *html.Node obtained from a link field (Parent/FirstChild/LastChild/PrevSibling/NextSibling), from a function that may return nil, or from a map lookup may only be dereferenced (field access, or passed to a callee that dereferences that parameter without its own test - computed as interprocedural summaries over the module, go-shiori/dom and the html.Node methods) where a nil test of that value excludes nil (guard-cut: with all `v != nil` edges removed the dereference must be unreachable); the remaining sites are reviewed exceptions naming the DOM invariant. T2 (cross-object bounds): a string/slice may be sliced at an offset that is the length of ANOTHER value only under a case-sensitive HasPrefix of exactly these two values or a length comparison. T3 (partial operations): every constant index, single-result type assertion and integer division is guarded by a length/kind/zero test of the same value, is structurally safe (strings.Split()[0], full regexp submatches), or reviewed. T4: start/end placeholders are balanced (the retainer pops one start per end; shared with C07). T5: Apply returns an error or a Result whose Node was set to a fresh div, on every path. T6: module code starts no goroutine (a fault in one could not be recovered by the caller). T7 (never loops): every loop of reachable module code has a recognised variant - an exhausted iterator, an integer counter moving towards a bound that cannot run away (including delete-and-stay loops and steps of 1 + a non-negative counter field), or a node cursor replaced by a node one or more links away in a single direction of a finite tree. T9 (nil records): a pointer to one of the module's own record types that a module function may answer as nil (explicit nil, or the answer of another such function; after expansion of helpers: a merge with a nil edge) is dereferenced only where a nil test of that value excludes nil. T10 (nested maps): an update outer[k][x]=v is reached only through the creation of the entry (outer[k]=make) unless the entry was found to exist, and only made maps are stored as entries. T8: every recursive call passes a strict descendant of the node it was given (one reviewed document-order walk in the page-number finder)."
+	r.NotCovered = "termination beyond the loop/recursion variants of T7/T8 (third-party code, stack depth on very deep documents), relational index arithmetic on offsets stored in struct fields (pagination/pattern: not claimed), nil maps other than entries of nested maps (T10), nil pointers other than nodes and the module's record types (T9), record pointers paired with an error/ok result, panics inside third-party code and the standard library, memory exhaustion."
 
 	reach := p.ReachableFrom(p.EntryPoints()...)
 	// the units of analysis: every reachable module function that is not an unexported helper,
@@ -537,6 +537,80 @@ func C01(p *core.Program, r *core.Report) {
 			}
 		}
 		r.Add("T9", "dereferences of maybe-nil record pointers examined", "", nT9 >= 3, fmt.Sprintf("%d dereferences in %d units; %d module functions may answer nil", nT9, len(fns), len(mayNilRec)))
+	}
+
+	// ---- T10: nested maps. `outer[k][x] = v` panics when outer has no entry for k (the inner map
+	// is nil). Every update of a map that is itself looked up in another map is preceded, on every
+	// path on which the entry was not found to exist, by the creation of that entry
+	// (`outer[k] = make(..)`), and only made maps are ever stored as entries.
+	{
+		nT10 := 0
+		type t10agg struct {
+			pos string
+			ok  bool
+			n   int
+			wit []string
+		}
+		t10 := map[string]*t10agg{}
+		var t10keys []string
+		for _, fn := range fns {
+			for _, in := range instrsOf(fn) {
+				mu, ok := in.(*ssa.MapUpdate)
+				if !ok {
+					continue
+				}
+				var lk *ssa.Lookup
+				switch x := core.StripConv(mu.Map).(type) {
+				case *ssa.Lookup:
+					lk = x
+				case *ssa.Extract:
+					lk, _ = x.Tuple.(*ssa.Lookup)
+				}
+				if lk == nil {
+					continue
+				}
+				if _, isMap := lk.X.Type().Underlying().(*types.Map); !isMap {
+					continue
+				}
+				nT10++
+				outer, key := c.Of(lk.X), c.Of(lk.Index)
+				exists, _ := core.CutAtoms(p, fn, regexp.MustCompile(q(`in(`+outer+`,`+key+`)`)), true)
+				created := func(x ssa.Instruction) bool {
+					st, ok := x.(*ssa.MapUpdate)
+					if !ok || c.Of(st.Map) != outer || c.Of(st.Key) != key {
+						return false
+					}
+					_, isMake := core.StripConv(st.Value).(*ssa.MakeMap)
+					return isMake
+				}
+				okPath, wit := core.MustPassThrough(fn, mu, created, exists)
+				// entries are never nil: every store into the outer map stores a made map
+				okEntries := true
+				for _, in2 := range instrsOf(fn) {
+					if st, ok := in2.(*ssa.MapUpdate); ok && c.Of(st.Map) == outer {
+						if _, isMake := core.StripConv(st.Value).(*ssa.MakeMap); !isMake {
+							okEntries = false
+						}
+					}
+				}
+				k10 := fmt.Sprintf("%s: update of the inner map %s[%s]", unitName(fn), shortVal(outer), shortVal(key))
+				ag := t10[k10]
+				if ag == nil {
+					ag = &t10agg{pos: p.Pos(mu.Pos()), ok: true}
+					t10[k10] = ag
+					t10keys = append(t10keys, k10)
+				}
+				ag.n++
+				if !(okPath && okEntries) && ag.ok {
+					ag.ok, ag.pos, ag.wit = false, p.Pos(mu.Pos()), wit
+				}
+			}
+		}
+		for _, k10 := range t10keys {
+			ag := t10[k10]
+			r.Add("T10", k10, ag.pos, ag.ok, fmt.Sprintf("unless the entry was found to exist, it is created with make before the inner map is written (%d update sites after expansion)", ag.n), ag.wit...)
+		}
+		r.Add("T10", "updates of nested maps examined", "", nT10 >= 1, fmt.Sprintf("%d", nT10))
 	}
 
 	// ---- T2
